@@ -10,6 +10,9 @@ Hosts == { <<Str("localhost")>>, <<Str("example"), Str("org")>>, <<Str("a"), Str
            <<Str("a"), Str("foo"), Str("ck")>>, <<Str("www"), Str("ck")>>, <<Str("a"), Str("www"), Str("ck")>>,
            <<Str("x"), Str("blogspot"), Str("com")>>, <<Str("blogspot"), Str("com")>>, <<Str("google"), Str("zz")>>,
            <<Str("other"), Str("example"), Str("com")>>, <<Str("1"), Str("2"), Str("3"), Str("4")>>, <<Str("org")>> }
+\* hostname requests are also made for addresses (a DNS engine is asked for whatever a CNAME points at): an IPv6 literal
+\* is one label without a public suffix, and it is the hostname as it stands - nothing of it is a port
+AddressHosts == { <<Str("2001:db8::1")>>, <<Str("::1")>>, <<Str("::ffff:1"), Str("2"), Str("3"), Str("4")>> }
 Schemes == { Str("http"), Str("https"), Str("ws"), Str("wss"), Str("ftp") }
 Ports   == { <<>>, Str(":8080") }
 Tails   == { <<>>, Str("/"), Str("/path/x.js"), Str("?q=1"), Str("/p?q=1"), Str("/p#frag"), Str("?q#frag"), Str("/a:b/c"),
@@ -30,7 +33,7 @@ Next == /\ st = "root" /\ st' = "case"
                  c' = [kind |-> "url", url |-> MkURL(sc, h, p, t), src |-> MkSrc(sh), host |-> h, srcHost |-> sh]
            \/ \E h \in Hosts, sh \in SrcHosts :
                  c' = [kind |-> "url", url |-> MkURL(Str("https"), h, <<>>, LongTail), src |-> MkSrc(sh), host |-> h, srcHost |-> sh]
-           \/ \E h \in Hosts : c' = [kind |-> "host", url |-> <<>>, src |-> <<>>, host |-> h, srcHost |-> <<>>]
+           \/ \E h \in Hosts \cup AddressHosts : c' = [kind |-> "host", url |-> <<>>, src |-> <<>>, host |-> h, srcHost |-> <<>>]
 Exp == IF c.kind = "url" THEN Fields(c.url, c.src, PublicSuffix(c.host), PublicSuffix(c.srcHost))
        ELSE HostFields(c.host, PublicSuffix(c.host))
 Emit == st = "case" => PrintT(ToJson([kind |-> c.kind, url |-> c.url, src |-> c.src, host |-> c.host,
